@@ -63,6 +63,30 @@ generate_events) against a boring reference interpreter over the generator's own
                         result that is a JSON object (`$r.k == "a"`, `"a" in $r.l`, `len($r.l) == 2`, `$r.d.z == $s`,
                         ..., and every or / and of two of them).  The reference value of an expression is Python's
                         value of the same text.
+               cont   : STATEMENTS WRITTEN OVER TWO LINES.  The line reader of the parser joins a line that ends with
+                        ` or` or with a backslash with the next line; the statement is where its first line is.  Every
+                        `lay` program of sizes 2-3 [2-4] with a block statement, written (a) with every condition as
+                        `<cond> or $c == 7` cut after the ` or`, (b) with every condition and every `$c = $c + 1` cut before
+                        its last word, the first line ending with a backslash; the second line indented by 0 / 2 / 4
+                        relative to the first (CONT_HANGS: like the statement, like its body, hanging).  Same program,
+                        same reference, whatever the layout; a program the parser rejects is a violation, too.
+               undo   : A TURN TAKEN BACK.  Every `undo` program (user | bot | $c = $c + 1 | $r = execute a(p=$c) |
+                        if $c == 0/1 [else] | while $c < 2) of sizes 2-3 [2-4] that runs an action; every user turn is
+                        opened by the UtteranceUserActionFinished event of a conversation with a host (followed by the
+                        UserIntent the driver chose); at every execution the action returns 1 or FAILS (the stub
+                        raises; <= max_fail failures per history): the real _process_start_action then appends the
+                        internal-error bot step and a hide_prev_turn event, which by the library's own definition
+                        (compute_next_steps: "remove everything after the last UtteranceUserActionFinished") takes the
+                        turn back.  The conversation so far is then the history without that turn: the reference drops
+                        the turn (variables included) and goes on from where the flow stood before it; the
+                        conversation is continued in every way of the driver.  The context the HOST sees is not
+                        compared once a turn was hidden (it is computed over all events, hidden ones included).
+               expr-dollar : string literals in which a `$` is followed by a name ("$s", "b $s", "in $usd"; $s is a
+                        variable of the program, $usd is not): assigned (`$k = L`, `L + $s`, `$s + L`, `L if $c == 0 else
+                        "a"`: the value the host sees), measured / searched / compared with the same characters written as
+                        two literals (`len(L) == n`, `"$" in L`, `$s in L`, `L == "b $" + "s"`), compared with a field of
+                        an action result that holds those characters.  A string literal is a constant (the docs know
+                        `$name` substitution in bot message texts only; the evaluator has no such notion either).
                api    : the conversation held through the public API, one LLMRails.generate_async call per user
                         turn, carried in the returned state object or in the message list (vf/props/c14_state.py:
                         world, programs, histories, oracle and signatures are described there).
@@ -116,7 +140,12 @@ generate_events) against a boring reference interpreter over the generator's own
                DYN_SIG      the history contains a start_flow event (`:unknown-to-another-instance` = used and fresh
                             runtime decide differently for it)
                EXPR_SIG     expr:<if|while|set>:<outermost operator of the expression evaluated last>
-             (the last three: `:step` = the decided step differs in whatever way, `:context`, `:exception`)
+               CONT_SIG     a statement written over two lines was executed (`:rejected-by-the-parser`: the program
+                            text is not accepted at all)
+               UNDO_SIG     the history contains a turn taken back by a failed action
+               DOLLAR_SIG   dollar-name-inside-string-literal:<set|if|while ...>: an expression with a string literal
+                            in which `$` is followed by a name was evaluated
+             (the last six: `:step` = the decided step differs in whatever way, `:context`, `:exception`)
              group `api`: api:<carrier>:<since when the followed flow is followed>:<step|exception>
   replay     program text + script of user intents / action results; histories are rebuilt with plain calls.
              For a used-vs-fresh difference all earlier calls on the used runtime (decision, action execution,
@@ -170,6 +199,12 @@ GRAMMARS = {
     "res": {
         "leaves": (("B",), ("U",), ("X",), ("S", "r", 1)),
         "conds": (("r", 1), ("r", "truthy"), ("r", "falsy")), "wk": (), "wr": True, "when": 0,
+    },
+    # a turn taken back: the action of an `execute` fails (the runtime answers with an internal error and appends
+    # hide_prev_turn), then the conversation goes on
+    "undo": {
+        "leaves": (("U",), ("B",), ("I", "c"), ("X",)),
+        "conds": (("c", 0), ("c", 1)), "wk": (2,), "when": 0,
     },
     # bodies of flows that arrive in the history (start_flow event) instead of the configuration
     "dyn": {
@@ -483,6 +518,56 @@ def dyn_programs(main_sizes, body_sizes):
     return [(main, subs, None, b) for n in main_sizes for main, subs in programs("lay", n) for b in bodies]
 
 
+def _or_conds(block):
+    """the same block with every condition written `<cond> or $c == 7` (an expression condition: the reference
+    evaluates that text)"""
+    out = []
+    for st in block:
+        if st[0] == "IF":
+            out.append(("IF", ("$", f"{cond_text(st[1])} or $c == {CONT_NEVER}"), _or_conds(st[2]),
+                        _or_conds(st[3]) if st[3] else None))
+        elif st[0] == "WH":
+            out.append(("WH", ("$", f"{cond_text(st[1], True)} or $c == {CONT_NEVER}"), _or_conds(st[2])))
+        else:
+            out.append(st)
+    return tuple(out)
+
+
+def _block_depth(block):
+    """how deep block statements are nested in each other"""
+    d = 0
+    for st in block or ():
+        if st[0] == "IF":
+            d = max(d, 1 + max(_block_depth(st[2]), _block_depth(st[3])))
+        elif st[0] == "WH":
+            d = max(d, 1 + _block_depth(st[2]))
+    return d
+
+
+CONT_HANGS = (0, 2, 4)  # indentation of the second line relative to the first: none, like a body, hanging
+
+
+def cont_programs(sizes, nested_sizes=()):
+    """(main, subs, layout): every `lay` program of these sizes with a block statement (nested_sizes: with a block
+    statement inside a block statement) x {every condition `<cond> or $c == 7`, cut after the ` or`; every condition
+    and every `$c = $c + 1` cut before its last word, first line ends with a backslash} x CONT_HANGS"""
+    out = []
+    for n in tuple(sizes) + tuple(nested_sizes):
+        for main, subs in programs("lay", n):
+            if _block_depth(main) < (1 if n in sizes else 2):
+                continue
+            for style in (CONT_OR, CONT_BACKSLASH):
+                m = _or_conds(main) if style == CONT_OR else main
+                for hang in CONT_HANGS:
+                    out.append((m, subs, (("cont_style", style), ("cont_hang", hang))))
+    return out
+
+
+def undo_programs(sizes):
+    """every program of grammar `undo` of these sizes that runs an action"""
+    return [p for n in sizes for p in programs("undo", n) if has(p[0], "X")]
+
+
 def aug_programs():
     """f1: user u0; $c = 0; [$c = 1 | $c = 2;] $c <op>= <rhs>; <post>   with post in {nothing, bot,
     if $c == <the value the assignment gives> bot [else bot]} - all combinations"""
@@ -573,6 +658,9 @@ def label(main, subs, f2, layout=None, dyn=None):
 
 
 STEP_KINDS = ("flow", "then", "else", "while", "when", "elsewhen")
+# group `cont`: how a statement is continued on the next line (layout keys cont_style, cont_hang)
+CONT_OR, CONT_BACKSLASH = 1, 2
+CONT_NEVER = 7  # `<cond> or $c == 7` is a condition with an ` or` in it (the reference evaluates that very text)
 
 
 def cond_text(cond, loop=False):
@@ -605,6 +693,36 @@ def _step(lay, kind):
     return int((lay or {}).get(kind, 2))
 
 
+def _continued(lay, st):
+    """is this statement written over two lines in that layout (group `cont`)"""
+    style = int((lay or {}).get("cont_style", 0))
+    if style == CONT_OR:
+        return st[0] in ("IF", "WH") and st[1][0] == "$" and " or " in st[1][1]
+    if style == CONT_BACKSLASH:
+        return st[0] in ("IF", "WH", "I")
+    return False
+
+
+def _put(lines, lay, st, col, text):
+    """append the text of a one-line statement; in a layout of group `cont` a statement that can be continued is
+    written over two lines: cut after its first ` or` (the line reader goes on to the next line after a trailing
+    ` or`) or before its last word (first line ends with a backslash), the second line indented by cont_hang
+    relative to the first"""
+    pad = " " * col
+    if not _continued(lay, st):
+        lines.append(pad + text)
+        return
+    hang = " " * (col + int(lay.get("cont_hang", 0)))
+    if int(lay["cont_style"]) == CONT_OR:
+        at = text.index(" or ") + 3
+        lines.append(pad + text[:at])
+        lines.append(hang + text[at + 1:])
+    else:
+        at = text.rindex(" ")
+        lines.append(pad + text[:at] + " \\")
+        lines.append(hang + text[at + 1:])
+
+
 def _emit(block, col, lines, lay=None):
     pad = " " * col
     for st in block:
@@ -618,7 +736,7 @@ def _emit(block, col, lines, lay=None):
         elif k == "S":
             lines.append(f"{pad}${st[1]} = {st[2]}")
         elif k == "I":
-            lines.append(f"{pad}${st[1]} = ${st[1]} + 1")
+            _put(lines, lay, st, col, f"${st[1]} = ${st[1]} + 1")
         elif k == "A":
             lines.append(f"{pad}${st[1]} {st[2]} {st[3]}")
         elif k == "E":
@@ -632,13 +750,13 @@ def _emit(block, col, lines, lay=None):
         elif k == "CT":
             lines.append(f"{pad}continue")
         elif k == "IF":
-            lines.append(f"{pad}if {cond_text(st[1])}")
+            _put(lines, lay, st, col, f"if {cond_text(st[1])}")
             _emit(st[2], col + _step(lay, "then"), lines, lay)
             if st[3]:
                 lines.append(f"{pad}else")
                 _emit(st[3], col + _step(lay, "else"), lines, lay)
         elif k == "WH":
-            lines.append(f"{pad}while {cond_text(st[1], True)}")
+            _put(lines, lay, st, col, f"while {cond_text(st[1], True)}")
             _emit(st[2], col + _step(lay, "while"), lines, lay)
         elif k == "WN":
             for bi, (name, body) in enumerate(st[1]):
@@ -727,6 +845,11 @@ class _Cell:
     def note_expr(self, kind, text):
         self.x.append(f"{kind}:{c14_expr.top_operator(text)}")
         self.s.add("expr-" + kind)
+        self.note_literals(kind, text)
+
+    def note_literals(self, kind, text):
+        if c14_expr.has_dollar_literal(text):
+            self.s.add("dollar-literal-in-" + kind)
 
 
 def _loop_cond(cond, ctx, feats):
@@ -782,6 +905,8 @@ def _exec(block, ctx, P, feats, fuel, frame):
         elif k == "I":
             ctx[st[1]] = ctx[st[1]] + 1
             feats.add("inc")
+            if _continued(P.get("layout"), st):
+                feats.add("continued-statement")
         elif k == "A":
             # `$v += e` / `$v -= e`: e is evaluated first (Python's own reading of the expression text),
             # then added to / subtracted from the variable
@@ -797,6 +922,7 @@ def _exec(block, ctx, P, feats, fuel, frame):
                 feats.note_expr("set", st[2])  # (one literal: an ordinary set)
             else:
                 feats.add("set")
+                feats.note_literals("set", st[2])
         elif k == "BR":
             raise _Break()
         elif k == "CT":
@@ -805,6 +931,8 @@ def _exec(block, ctx, P, feats, fuel, frame):
             var, const = st[1]
             if var == "$":
                 feats.note_expr("if", const)
+            if _continued(P.get("layout"), st):
+                feats.add("continued-statement")
             if st[3] and _step(P.get("layout"), "else") < _step(P.get("layout"), "then"):
                 feats.add("else-body-dedented")
             if cond_value(st[1], ctx):
@@ -820,6 +948,8 @@ def _exec(block, ctx, P, feats, fuel, frame):
         elif k == "WH":
             var, kk = st[1]
             broke = False
+            if _continued(P.get("layout"), st):
+                feats.add("continued-statement")
             while _loop_cond(st[1], ctx, feats):
                 fuel[0] -= 1
                 if fuel[0] < 0:
@@ -908,6 +1038,21 @@ def ref_run(P, ahist, tab=None):
             cur = None
 
     after_instant = None
+    # a failed action takes its turn back (hide_prev_turn): the conversation so far is the history without that turn
+    hidden = 0
+    just_hidden = bool(ahist) and ahist[-1][0] == "done" and ahist[-1][2] == FAIL
+    if any(e[0] == "done" and e[2] == FAIL for e in ahist):
+        kept = []
+        for e in ahist:
+            if e[0] == "done" and e[2] == FAIL:
+                while kept and kept[-1][0] != "user":
+                    kept.pop()
+                if kept:
+                    kept.pop()
+                hidden += 1
+            else:
+                kept.append(e)
+        ahist = tuple(kept)
     for ev in ahist:
         cell.s = set()
         cell.x = []
@@ -948,6 +1093,11 @@ def ref_run(P, ahist, tab=None):
                 raise AssertionError(f"driver/reference out of step at {ev} in {ahist}")
             advance(ev[2])
         cum |= cell.s
+    if hidden:
+        cum.add("turn-taken-back")
+        if just_hidden:
+            cell.s = {"turn-taken-back"}
+            from_path = "-"
     pend = cur["pend"] if cur else None
     expect = None
     param = None
@@ -976,6 +1126,7 @@ def ref_run(P, ahist, tab=None):
         "from": from_path,
         "to": to_path,
         "after_instant": after_instant,
+        "hidden": hidden,
         "expr": cell.x[-1] if cell.x else None,  # the expression evaluated last before the checked decision
     }
 
@@ -986,6 +1137,7 @@ YAML = "models: []\n"
 DROP_KEYS = ("uid", "event_created_at", "source_uid", "action_uid", "action_started_at", "action_finished_at",
              "action_updated_at")
 STUB = {"result": 1, "script": None, "calls": []}  # what the stub action returns / was called with
+FAIL = "<the action raises>"  # scripted "result": the action fails (group `undo`)
 
 
 class ImplHang(BaseException):
@@ -994,9 +1146,10 @@ class ImplHang(BaseException):
 
 async def _stub_action(p=None):
     STUB["calls"].append(p)
-    if STUB["script"]:
-        return STUB["script"].popleft()
-    return STUB["result"]
+    res = STUB["script"].popleft() if STUB["script"] else STUB["result"]
+    if res == FAIL:
+        raise RuntimeError("backend down")
+    return res
 
 
 def lib():
@@ -1007,6 +1160,10 @@ def lib():
         from nemoguardrails.colang.v1_0.runtime.runtime import RuntimeV1_0
         from nemoguardrails.utils import new_event_dict
 
+        import logging
+
+        # (the dispatcher logs the traceback of a failing action - group `undo` - on stderr)
+        logging.getLogger("nemoguardrails.actions.action_dispatcher").setLevel(logging.CRITICAL)
         disp = ActionDispatcher(load_all_actions=False)
         for pfx in NAMES.values():
             for n in range(1, 12):
@@ -1212,6 +1369,10 @@ class World:
     # --- what RuntimeV1_0.generate_events does around the decision function
     def user_events(self, intent, first):
         ev = [] if first else [_LIB["new_event_dict"]("Listen")]
+        if self.P.get("utter"):
+            # the event that opens a user turn in a conversation with the host (hide_prev_turn goes back to it)
+            # (a plain dict, as LLMRails builds it from a user message)
+            ev.append({"type": "UtteranceUserActionFinished", "final_transcript": intent})
         if self.dyn and intent == self.dyn["start"]:
             # not a user turn: the event that brings a flow into the conversation
             ev.append(_LIB["new_event_dict"]("start_flow", flow_id=self.dyn["flow"], flow_body=self.dyn["body"]))
@@ -1270,7 +1431,14 @@ def check_node(W, ahist, hist, r, k=0):
         return _check_after_instant(W, ahist, hist, r, ru, rf)
     where = f"{_short(r['from'])}->{_short(r['to'])}" if r["status"] == "strict" else "left-flow-involved"
     cls = None  # input classes with a signature of their own
-    if "adjacent-when" in r["cum"]:
+    dollar = sorted(f[len("dollar-literal-in-"):] for f in r["cum"] if f.startswith("dollar-literal-in-"))
+    if "continued-statement" in r["cum"]:
+        cls = CONT_SIG
+    elif dollar:
+        cls = DOLLAR_SIG + ":" + "+".join(dollar)
+    elif r.get("hidden"):
+        cls = UNDO_SIG
+    elif "adjacent-when" in r["cum"]:
         cls = WHEN_SIG
     elif "nested-call-at-subflow-entry" in r["last"]:
         cls = NESTED_SIG
@@ -1308,7 +1476,8 @@ def check_node(W, ahist, hist, r, k=0):
         return None, viol, step
     if step != r["expect"]:
         k = kind_of(step, r["expect"])
-        if cls in (ELSE_DEDENT_SIG, AUG_SIG, RES_SIG) or (cls and cls.startswith(EXPR_SIG + ":")):
+        if cls in (ELSE_DEDENT_SIG, AUG_SIG, RES_SIG, CONT_SIG, UNDO_SIG) or (
+                cls and cls.startswith((EXPR_SIG + ":", DOLLAR_SIG + ":"))):
             sig = f"{cls}:step"  # whichever way the decided step differs (nothing / another one / one too many)
         elif cls:
             sig = f"{cls}:{'spurious-step' if k.startswith('spurious') else k}"
@@ -1320,6 +1489,10 @@ def check_node(W, ahist, hist, r, k=0):
         return None, viol, step
     vis = W.visible_context(hist + steps)
     want = {v: r["ctx"].get(v) for v in W.vars}
+    if r.get("hidden"):
+        # not demanded: the context the host sees is computed over all events, those of a hidden turn included
+        # (the flows are replayed without them: what they read shows in the steps decided from here on)
+        want = vis
     if vis != want:
         diff = [v for v in W.vars if vis[v] != want[v]]
         viol.append(("context", f"{cls}:context" if cls else f"context:${'+$'.join(diff)}:{where}:{feats}",
@@ -1348,6 +1521,15 @@ DYN_SIG = "flow-defined-by-start_flow-event"
 # input class: the statement executed last before the checked decision is an `if` / `while` / `$v = e` of group `expr`;
 # the signature continues with that statement kind and the outermost operator of its expression
 EXPR_SIG = "expr"
+# input class: a statement written over two lines (trailing ` or` / backslash) was executed
+CONT_SIG = "statement-continued-on-the-next-line"
+# input class: the history contains a turn that was taken back (an action failed: hide_prev_turn)
+UNDO_SIG = "after-a-turn-taken-back-by-a-failed-action"
+# input class: an expression with a string literal in which a `$` is followed by a name was evaluated (continues
+# with the statement kinds: set / if / while)
+DOLLAR_SIG = "dollar-name-inside-string-literal"
+# a generated program the parser / the runtime constructor rejects
+REJECT_SIG = "program-rejected"
 # how often one decision call is repeated on the used runtime when it changes the state of that runtime
 PUMP_MAX = {"quick": 1500, "thorough": 6000}
 PUMP_NODES = 3  # per program: the first histories (BFS order) whose call changed the state
@@ -1420,9 +1602,15 @@ def explore(task):
     P = label(main, subs, F2_VARIANTS[f2name], opts.get("layout"), opts.get("dyn"))
     if opts.get("vars"):
         P["vars"] = list(opts["vars"])
+    if opts.get("utter"):
+        P["utter"] = True
     order = ("f1", "s1", "s2", "f2") if seed % 2 == 0 else ("f2", "s2", "s1", "f1")
-    W = World(P, order, opts.get("results"))
+    try:
+        W = World(P, order, opts.get("results"))
+    except Exception as e:  # noqa  (a program of the quantified domain that cannot even be loaded)
+        return _rejected(idx, P, order, opts, e)
     max_acts = opts.get("max_acts")
+    max_fail = opts.get("max_fail", 0)
     counts = {
         "programs": 1, "states": 0, "transitions": 0, "traces_validated_against_impl": 0,
         "strict_decisions_checked": 0, "left_flow_histories_second_clause_only": 0,
@@ -1439,6 +1627,9 @@ def explore(task):
         "repetition_chains_cut_at_bound": 0, "repetition_chains_differs": 0, "repetition_chains_blind_completed": 0,
         "result_assigned_over_earlier_value_checked": 0, "falsy_result_over_truthy_value_checked": 0,
         "histories_with_start_flow_event": 0, "start_flow_turns_compared_with_generate_events": 0,
+        "programs_rejected": 0, "decisions_after_a_continued_statement_checked": 0,
+        "decisions_after_a_turn_taken_back_checked": 0, "actions_failed": 0,
+        "decisions_after_a_literal_with_dollar_name_checked": 0,
     }
     changers = []  # the first histories whose decision call changed the state of the used runtime
     feat_counts = {}
@@ -1530,6 +1721,12 @@ def explore(task):
                 counts["falsy_result_over_truthy_value_checked"] += 1
             if "flow-from-start_flow-event" in r["cum"]:
                 counts["histories_with_start_flow_event"] += 1
+            if "continued-statement" in r["cum"]:
+                counts["decisions_after_a_continued_statement_checked"] += 1
+            if r.get("hidden"):
+                counts["decisions_after_a_turn_taken_back_checked"] += 1
+            if any(f.startswith("dollar-literal-in-") for f in r["cum"]):
+                counts["decisions_after_a_literal_with_dollar_name_checked"] += 1
             if r["leave"] == "unknown-intent":
                 counts["leave_unknown_intent_checked"] += 1
             elif r["leave"] and "left-flow" in r["last"]:
@@ -1589,11 +1786,14 @@ def explore(task):
                     continue
                 if max_acts is not None and n_acts >= max_acts:
                     continue
+                if res == FAIL and sum(1 for e in ahist if e[0] == "done" and e[2] == FAIL) >= max_fail:
+                    continue
                 ah2 = ahist + (("done", step[1], res),)
                 W.trace.append(["a"] + list(node_id(ahist, k)) + [res])
                 au, arg_u = W.action(W.rt_used, h2, res)
                 af, arg_f = W.action(W.fresh(), h2, res)
                 counts["actions_executed_used_and_fresh"] += 1
+                counts["actions_failed"] += int(res == FAIL)
                 if norm(au) != norm(af) or arg_u != arg_f:
                     add_viol("action-dependence", f"earlier-calls-matter:action-execution:{_short(r['to'])}",
                              f"_process_start_action for the SAME history: used runtime called the action with p={arg_u!r} "
@@ -1687,6 +1887,22 @@ def explore(task):
             "sample": sample, "size": prog_size(P), "grammar": opts["grammar"]}
 
 
+def _rejected(idx, P, order, opts, exc):
+    """result of explore() for a program that could not be loaded"""
+    src = to_colang(P, order)
+    cont = "cont_style" in (P.get("layout") or {})
+    sig = (CONT_SIG if cont else REJECT_SIG + ":" + str(opts["grammar"]).split(":")[0]) + ":rejected-by-the-parser"
+    text = f"the program is not accepted: {type(exc).__name__}: {exc}"[:400]
+    counts = {"programs": 1, "states": 0, "transitions": 0, "traces_validated_against_impl": 0,
+              "programs_rejected": 1, "violating_histories": 1}
+    v = {"signature": sig, "n": 1, "size": (prog_size(P), 0, 0, len(src)),
+         "what": f"program `{_oneline(src)}`: {text}",
+         "replay": {"source": src, "program": P, "order": list(order), "script": [], "k": 0, "kind": "rejected",
+                    "detail": text}}
+    return {"idx": idx, "counts": counts, "features": {}, "violations": [v], "sample": None, "size": prog_size(P),
+            "grammar": opts["grammar"]}
+
+
 def _brief_res(res):
     if res[0] != "ok":
         return f"exception {res[1]}"
@@ -1729,6 +1945,26 @@ def plan(tier):
     small = {"max_user": 3, "max_dev": 1, "max_zero": 1}
     big = {"max_user": 4, "max_dev": 2, "max_zero": 2}
     out = []
+    X = c14_expr
+    # (first, so that a time cap on a loaded machine does not cut them)
+    # statements continued on the next line: trailing ` or` / backslash, second line indented in three ways
+    cont = {"max_user": 3, "max_dev": 0, "max_zero": 1, "prio": True}
+    out.append(("cont", "2-3" if tier == "quick" else "2-4", cont_programs((2, 3) if tier == "quick" else (2, 3, 4)),
+                "simple", cont))
+    # a turn taken back: an action fails (internal error + hide_prev_turn), then the conversation goes on
+    undo = {"max_zero": 99, "results": [1, FAIL], "utter": True, "prio": True}
+    if tier == "quick":
+        out.append(("undo", "2", undo_programs((2,)), "simple", dict(undo, max_user=4, max_dev=1, max_fail=1)))
+        out.append(("undo", "3", undo_programs((3,)), "simple", dict(undo, max_user=4, max_dev=0, max_fail=1)))
+    else:
+        out.append(("undo", "2-3", undo_programs((2, 3)), "simple", dict(undo, max_user=5, max_dev=1, max_fail=2)))
+        out.append(("undo", "4", undo_programs((4,)), "simple", dict(undo, max_user=4, max_dev=0, max_fail=1)))
+    # string literals with `$name` in them: assigned, concatenated, measured, compared with an action result
+    dl = {"max_user": 1 if tier == "quick" else 2, "max_dev": 1, "max_zero": 99, "vars": ["c", "s", "k"], "prio": True}
+    out.append(("expr-dollar-set", "literals x 4 forms", X.set_programs(X.dollar_set_exprs()), "simple", dl))
+    out.append(("expr-dollar-if", "literals x 4 conditions", X.cond_programs(X.dollar_conds()), "simple", dl))
+    out.append(("expr-dollar-field", "5 conditions", X.cond_programs(X.dollar_result_conds(), attr=True), "simple",
+                dict(dl, vars=["c", "s", "r"], results=[X.D_RESULT])))
     # the conversation held through LLMRails.generate_async, one call per user turn (vf/props/c14_state.py); first:
     # these programs take longest
     for carrier in c14_state.CARRIERS:
@@ -1736,7 +1972,6 @@ def plan(tier):
                     c14_state.state_programs((1, 2) if tier == "quick" else (1, 2, 3)), "two-turn-set",
                     {"family": "api", "carrier": carrier, "max_user": 4 if tier == "quick" else 5, "max_dev": 1}))
     # expressions: every condition / right-hand side with <= n operators (see vf/props/c14_expr.py)
-    X = c14_expr
     ex = {"max_user": 1 if tier == "quick" else 2, "max_dev": 1, "max_zero": 99, "vars": ["c", "s", "k"]}
     nb = (1, 2) if tier == "quick" else (1, 2, 3)
     conds = [c for n in nb for c in X.b_exprs(n)]
@@ -1821,8 +2056,11 @@ def run(rep, tier):
     # a program of group `api` takes as long as a few hundred of the others: one per chunk of the pool, not eight
     CH = 8
     slow = [t for t in ts if t[4].get("family") == "api"]
-    rest = [t for t in ts if t[4].get("family") != "api"]
-    ts = []
+    rest = [t for t in ts if t[4].get("family") != "api" and not t[4].get("prio")]
+    # the groups that go first are not held up by a slow program in their chunk (whole chunks of their own)
+    ts = [t for t in ts if t[4].get("prio")]
+    pad = -len(ts) % CH
+    ts, rest = ts + rest[:pad], rest[pad:]
     for j, t in enumerate(slow):
         ts += [t] + rest[(CH - 1) * j:(CH - 1) * (j + 1)]
     ts += rest[(CH - 1) * len(slow):]
@@ -1871,6 +2109,9 @@ def run(rep, tier):
                        "expression_atoms": list(c14_expr.S_ATOMS) + list(c14_expr.C_ATOMS),
                        "expression_value_of_$s": c14_expr.S_VALUE, "expression_action_result": c14_expr.R_VALUE,
                        "expression_conditions_over_result_fields": [t for t, _ in c14_expr.r_atoms()],
+                       "continuation_line_indentation_relative_to_first_line": list(CONT_HANGS),
+                       "string_literals_with_dollar_name": list(c14_expr.D_LITS),
+                       "action_result_of_expr_dollar_field": c14_expr.D_RESULT,
                        "api_carriers": list(c14_state.CARRIERS),
                        "per_group (max user turns / max unexpected turns / max actions returning 0 per history)": bounds,
                        "action_results": [0, 1], "grammars": GRAMMARS})
@@ -1912,6 +2153,15 @@ def run(rep, tier):
         "the growing message list; judged: the bot steps of the user's flows in each reply; a history ends after a turn "
         "in which the reference decides no bot step (the fallback flow's LLM step is not modelled); turns involving a "
         "flow left earlier are not run",
+        "cont group: a line ending in ` or` or a backslash is joined with the next line by the parser's line reader "
+        "(nemoguardrails/colang/v1_0/lang/utils.py:get_numbered_lines); the indentation of the second line (0 / 2 / 4 "
+        "relative to the first) is layout only; the reference evaluates the condition text `<cond> or $c == 7` as written",
+        "undo group: user turns are opened by UtteranceUserActionFinished + UserIntent (the events generate_user_intent "
+        "leaves between them are not in the history: no flow of the program matches them); a failing action = the "
+        "registered stub raises; the turn it takes back is dropped by the reference together with its assignments; "
+        "the host-visible context (compute_context over ALL events) is not compared after a hidden turn",
+        "expr-dollar groups: a double-quoted string literal is a constant, whatever its characters (Python's value of "
+        "the same text); the reference replaces `$name` by the variable only outside string literals",
         "state of the used instance = pickle of (runtime.flow_configs, config.flows, plain attributes of the runtime "
         "object, module-level numbers/containers of nemoguardrails.colang.v1_0.runtime.{sliding,flows,eval,utils,runtime}); "
         "state kept elsewhere (closures, function attributes) is only met by the blind repetitions",
@@ -1984,6 +2234,15 @@ def replay(rp):
         return c14_state.replay(rp)
     lib()
     P = rp["program"]
+    if rp.get("kind") == "rejected":
+        print(rp["source"])
+        try:
+            World(P, tuple(rp.get("order") or ("f1", "s1", "s2", "f2")))
+            print("expected: the program is accepted; observed: accepted")
+        except Exception as e:  # noqa
+            print(f"expected: the program is accepted; observed: {type(e).__name__}: {e}"[:600])
+        print("recorded:", rp.get("detail"))
+        return 0
     W = World(P, tuple(rp.get("order") or ("f1", "s1", "s2", "f2")))
     print(W.src)
     if W.dyn:
